@@ -176,24 +176,19 @@ Theorem C02_every_element_has_a_level :
 Proof. exact @In_occurs_at. Qed.
 Print Assumptions C02_every_element_has_a_level.
 
-(* ---- non-vacuity: evaluated instances ---- *)
-
-Definition adds (vs : list Z) : list (op (A:=Z)) := map (OpAdd 0) vs.
-Definition final_root (ops : list (op (A:=Z))) : option (tree (A:=Z)) :=
-  option_map (@root Z) (nth_error (fst (run_history Z.eqb zcompare ops)) 0).
-
-(* sorted input 1..7 gives the perfect tree (three single left rotations and one at the root) *)
-Example C02_example_sorted :
+(* ---- non-vacuity: evaluated instances (adds, final_root: Avl/BalanceHist.v) ----
+   sorted input 1..7 gives the perfect tree (single left rotations all the way);
+   3,1,2 needs a double rotation in add; removing the two-child root 5 pops its
+   successor 7 out of a right subtree that popLeftMost must rebalance (double
+   rotation); rebalance leaves a balanced node alone. The hypotheses of the
+   theorems above hold of these trees (inv, by C02_balanced_all_histories). *)
+Example C02_example :
   final_root (adds [1;2;3;4;5;6;7]) =
     Some (N (N (leaf 1) 2 1 (leaf 3)) 4 2 (N (leaf 5) 6 1 (leaf 7))) /\
-  height (N (N (leaf 1) 2 1 (leaf 3)) 4 2 (N (leaf 5) 6 1 (leaf 7))) = 2.
-Proof. vm_compute. split; reflexivity. Qed.
-
-(* a double rotation in add (3,1,2), and a removal of a two-child root whose
-   successor is popped from a right subtree that must be rebalanced *)
-Example C02_example_double_and_pop :
+  height (N (N (leaf 1) 2 1 (leaf 3)) 4 2 (N (leaf 5) 6 1 (leaf 7))) = 2 /\
   final_root (adds [3;1;2]) = Some (N (leaf 1) 2 1 (leaf 3)) /\
-  final_root (adds [5;2;8;1;7;10;9;11;12] ++ [OpRemove 0 5]) =
-    Some (N (N (leaf 1) 2 1 E) 7 3 (N (N (leaf 8) 9 1 E) 10 2 (N E 11 1 (leaf 12)))) /\
+  final_root (adds [5;2;8;1;7;10;9]) = Some (N (N (leaf 1) 2 1 E) 5 3 (N (leaf 7) 8 2 (N (leaf 9) 10 1 E))) /\
+  final_root (adds [5;2;8;1;7;10;9] ++ [OpRemove 0 5]) =
+    Some (N (N (leaf 1) 2 1 E) 7 2 (N (leaf 8) 9 1 (leaf 10))) /\
   rebalance (node (leaf 1) 2 (N (leaf 3) 4 1 (leaf 5))) = Ok (node (leaf 1) 2 (N (leaf 3) 4 1 (leaf 5))).
 Proof. vm_compute. repeat split. Qed.
